@@ -8,6 +8,7 @@ from ..core import FUNC, call_attr, calls_in, const, dotted, is_const, kwarg, no
 from .c09 import waiter_rule, _stored_in_cancelled_table
 
 EXPLANATION = [
+    'C16.queue-waiters: DataPacketQueue.flush(handle) sets the drained event of the popped per-connection state on every path on which such a state exists (whatever its in-flight count), so a drain() waiting on a closed connection ends (same rule as C04.drain).',
     'C16.pending-indication: Server.on_disconnection cancels the confirmation future it removes, and the indication coroutine\'s `finally` does not re-create an entry for a bearer that is gone.',
     'C16.device-cleanup: in Device.on_disconnection every subsystem clean-up call (GATT server, ...) is guarded exactly like the emission of the disconnection event: no extra condition such as the link-layer role.',
     'C16.smp-sessions: Session.on_disconnection reports the end of the session to the manager on every path and the manager removes it from its table; the session registers for its connection\'s disconnection event.',
@@ -301,6 +302,48 @@ def pending_indication(ctx):
         ok = any(dotted(c.func) in (f'{var}.cancel', f'{var}.set_exception') for c in calls_in(od))
     R.check(ok, rule, 'bumble.gatt_server.Server.on_disconnection | pending confirmation released', 'the future removed from pending_confirmations is cancelled',
             'the pending confirmation of a closed bearer is dropped from the table but not cancelled: the indicate call waits for the whole GATT timeout', p.loc(od))
+    # ... on every path: each per-bearer table of the server loses its entry and the pending future is released, whether or
+    # not the bearer ever subscribed (a forced indication needs no subscription)
+    srv = p.cls('bumble.gatt_server.Server')
+    init = srv.methods.get('__init__') if srv else None
+    per_bearer = set()
+    if init is not None:
+        for n in walk_local(init):
+            if isinstance(n, (ast.Assign, ast.AnnAssign)):
+                tg = n.targets[0] if isinstance(n, ast.Assign) else n.target
+                d = dotted(tg) or ''
+                ann = text(srv.annots.get(d[5:])) if d.startswith('self.') and d[5:] in srv.annots else (text(n.annotation) if isinstance(n, ast.AnnAssign) else '')
+                if d.startswith('self.') and ('Bearer' in ann) and ('dict' in ann.lower()):
+                    per_bearer.add(d[5:])
+    per_bearer |= {a for a, ann in (srv.annots.items() if srv else []) if 'Bearer' in text(ann) and 'dict' in text(ann).lower()}
+
+    class Gone(paths.Domain):
+        def event(self, node, v):
+            if isinstance(node, ast.Call) and call_attr(node) == 'pop' and (dotted(node.func.value) or '').startswith('self.') and (dotted(node.func.value))[5:] in per_bearer and node.args and norm(node.args[0]) == od.args.args[1].arg:
+                v = v | {dotted(node.func.value)[5:]}
+            if isinstance(node, ast.Delete):
+                for t_ in node.targets:
+                    if isinstance(t_, ast.Subscript) and (dotted(t_.value) or '')[5:] in per_bearer:
+                        v = v | {dotted(t_.value)[5:]}
+            if isinstance(node, ast.Call) and call_attr(node) in ('cancel', 'set_exception'):
+                v = v | {'<released>'}
+            return (v,)
+
+        def assume(self, atom, truth, v):
+            # the pending future exists and is not done: the case that matters
+            t = norm(atom)
+            if t.endswith('is not None') and 'pending' in t:
+                return (v,) if truth else ()
+            if t.endswith('is None') and 'pending' in t:
+                return () if truth else (v,)
+            if t.endswith('.done()'):
+                return () if truth else (v,)
+            return (v,)
+    res = paths.run(od, Gone(), frozenset())
+    want = set(per_bearer) | {'<released>'}
+    short = sorted(f'{k}: keeps {sorted(want - set(v))}' for k, st in res.items() if not k.startswith('raise') for v in st if want - set(v))
+    R.check(len(per_bearer) >= 3 and not short, rule, 'bumble.gatt_server.Server.on_disconnection | every per-bearer table, every path', f'every normal path drops the bearer from {sorted(per_bearer)} and releases the pending confirmation',
+            'a path through on_disconnection leaves an entry of the closed bearer behind (or its pending confirmation unreleased), e.g. for a bearer that never subscribed: a forced indication keeps waiting and its slot stays locked', p.loc(od), short[:3])
     # nothing is re-inserted for a bearer that has been torn down meanwhile
     bad = []
     for t in [x for x in ast.walk(ind) if isinstance(x, ast.Try)]:
@@ -314,7 +357,14 @@ def pending_indication(ctx):
             'the `finally` clause writes pending_confirmations[bearer] after the bearer may have been torn down: an entry for the closed connection reappears in the table', bad[0] if bad else p.loc(ind))
 
 
+def queue_waiters(ctx):
+    """drain() waiters of a data queue are released when their connection is flushed (same rule as C04.drain)."""
+    from . import c04
+    c04.drain(ctx, rule='C16.queue-waiters')
+
+
 RULES = [
+    ('C16.queue-waiters', queue_waiters),
     ('C16.pending-indication', pending_indication),
     ('C16.device-cleanup', device_cleanup),
     ('C16.smp-sessions', smp_sessions),
